@@ -71,8 +71,11 @@ use std::{
 };
 use vh_common::*;
 
-pub const N_INSTR: usize = 3;
-pub const EXS: [ExchangeId; 2] = [ExchangeId::BinanceSpot, ExchangeId::Kraken];
+pub const N_INSTR: usize = 6;
+/// three exchanges; the one that ends up with ExchangeIndex 1 (the MIDDLE one) is the one whose
+/// execution link can be missing / terminated
+pub const EXS: [ExchangeId; 3] = [ExchangeId::Kraken, ExchangeId::BinanceSpot, ExchangeId::Mock];
+pub const WEAK_EX: usize = 1;
 
 pub type State = EngineState<DefaultGlobalData, DefaultInstrumentMarketData>;
 pub type Txs = MultiExchangeTxMap<UnboundedTx<ExecutionRequest>>;
@@ -84,8 +87,9 @@ pub type Tick = AuditTick<Audit, EngineContext>;
 pub fn t0() -> DateTime<Utc> {
     DateTime::<Utc>::from_timestamp(1_700_000_000, 0).unwrap()
 }
-fn at(ms: i64) -> DateTime<Utc> {
-    t0() + Duration::milliseconds(ms)
+/// all input times are NANOSECONDS relative to t0 (chrono resolution; the Coq unit is ns too)
+fn at(ns: i64) -> DateTime<Utc> {
+    t0() + Duration::nanoseconds(ns)
 }
 fn tenths(v: i64) -> Decimal {
     Decimal::new(v, 1)
@@ -129,7 +133,7 @@ pub enum OSt {
     Cancelled(i64),
     Filled,
     Expired,
-    Failed,
+    Failed(u8), // error class, see order_error
 }
 
 #[derive(Clone, Debug, PartialEq)]
@@ -152,11 +156,14 @@ pub enum Ev {
     MktReconn(usize),
     Balance(BalIn),
     Order(Spec, OSt),
-    CancelResp { key: Key, ok: bool, t: i64 },
+    CancelResp { key: Key, ok: bool, t: i64, err: u8 },
     Trade { i: usize, side: u8, price: i64, qty: i64, fee: i64, t: i64, n: u64 },
     Snapshot { ex: usize, balances: Vec<BalIn>, orders: Vec<(Spec, OSt)> },
     MktTrade { i: usize, price: i64, t: i64 },
-    MktL1 { i: usize, bid: i64, ask: i64, t: i64 },
+    MktL1 { i: usize, bid: i64, ask: i64, t: i64, sides: u8 }, // sides: 0 both 1 bid only 2 ask only 3 empty
+    MktBook { i: usize, t: i64, snapshot: bool },
+    MktCandle { i: usize, t: i64 },
+    MktLiq { i: usize, t: i64 },
 }
 
 /// what the scripted strategy returns if it is asked at this tick
@@ -176,6 +183,7 @@ pub enum Perturb {
     Swap(usize),
     Replay(usize),
     Window(usize, usize),
+    Triple(usize),
 }
 
 #[derive(Clone, Debug)]
@@ -277,7 +285,7 @@ impl OSt {
             OSt::Cancelled(t) => json!({"s": "cancelled", "t": t}),
             OSt::Filled => json!({"s": "filled"}),
             OSt::Expired => json!({"s": "expired"}),
-            OSt::Failed => json!({"s": "failed"}),
+            OSt::Failed(e) => json!({"s": "failed", "err": e}),
         }
     }
     fn from_json(v: &Value) -> OSt {
@@ -293,7 +301,7 @@ impl OSt {
             }
             "cancelled" => OSt::Cancelled(i6(&v["t"])),
             "expired" => OSt::Expired,
-            "failed" => OSt::Failed,
+            "failed" => OSt::Failed((us(&v["err"]) % 10) as u8),
             _ => OSt::Filled,
         }
     }
@@ -325,10 +333,25 @@ impl OSt {
             }),
             OSt::Filled => OrderState::fully_filled(),
             OSt::Expired => OrderState::expired(),
-            OSt::Failed => OrderState::Inactive(InactiveOrderState::OpenFailed(
-                OrderError::Connectivity(ConnectivityError::Timeout),
-            )),
+            OSt::Failed(e) => OrderState::Inactive(InactiveOrderState::OpenFailed(order_error(*e))),
         }
+    }
+}
+
+/// every error class an order response can carry
+pub fn order_error(code: u8) -> OrderError<AssetIndex, InstrumentIndex> {
+    use barter_execution::error::ApiError;
+    match code % 10 {
+        0 => OrderError::Connectivity(ConnectivityError::Timeout),
+        1 => OrderError::Connectivity(ConnectivityError::ExchangeOffline(ExchangeId::Okx)),
+        2 => OrderError::Connectivity(ConnectivityError::Socket("socket closed".into())),
+        3 => OrderError::Rejected(ApiError::AssetInvalid(AssetIndex(1), "asset".into())),
+        4 => OrderError::Rejected(ApiError::InstrumentInvalid(InstrumentIndex(2), "instrument".into())),
+        5 => OrderError::Rejected(ApiError::RateLimit),
+        6 => OrderError::Rejected(ApiError::BalanceInsufficient(AssetIndex(0), "funds".into())),
+        7 => OrderError::Rejected(ApiError::OrderRejected("rejected".into())),
+        8 => OrderError::Rejected(ApiError::OrderAlreadyCancelled),
+        _ => OrderError::Rejected(ApiError::OrderAlreadyFullyFilled),
     }
 }
 
@@ -364,13 +387,16 @@ impl Ev {
             Ev::MktReconn(x) => json!({"k": "mkt_reconn", "ex": x}),
             Ev::Balance(b) => json!({"k": "balance", "b": b.to_json()}),
             Ev::Order(s, st) => json!({"k": "order", "spec": s.to_json(), "st": st.to_json()}),
-            Ev::CancelResp { key, ok, t } => json!({"k": "cancel_resp", "key": key.to_json(), "ok": ok, "t": t}),
+            Ev::CancelResp { key, ok, t, err } => json!({"k": "cancel_resp", "key": key.to_json(), "ok": ok, "t": t, "err": err}),
             Ev::Trade { i, side, price, qty, fee, t, n } => json!({"k": "trade", "i": i, "side": side, "price": price, "qty": qty, "fee": fee, "t": t, "n": n}),
             Ev::Snapshot { ex, balances, orders } => json!({"k": "snapshot", "ex": ex,
                 "balances": balances.iter().map(BalIn::to_json).collect::<Vec<_>>(),
                 "orders": orders.iter().map(|(s, st)| json!({"spec": s.to_json(), "st": st.to_json()})).collect::<Vec<_>>()}),
             Ev::MktTrade { i, price, t } => json!({"k": "mkt_trade", "i": i, "price": price, "t": t}),
-            Ev::MktL1 { i, bid, ask, t } => json!({"k": "mkt_l1", "i": i, "bid": bid, "ask": ask, "t": t}),
+            Ev::MktL1 { i, bid, ask, t, sides } => json!({"k": "mkt_l1", "i": i, "bid": bid, "ask": ask, "t": t, "sides": sides}),
+            Ev::MktBook { i, t, snapshot } => json!({"k": "mkt_book", "i": i, "t": t, "snapshot": snapshot}),
+            Ev::MktCandle { i, t } => json!({"k": "mkt_candle", "i": i, "t": t}),
+            Ev::MktLiq { i, t } => json!({"k": "mkt_liq", "i": i, "t": t}),
         }
     }
     pub fn from_json(v: &Value) -> Ev {
@@ -380,14 +406,15 @@ impl Ev {
             "cmd_close" => Ev::CmdClose(filter_from(&v["filter"])),
             "cmd_cancel_orders" => Ev::CmdCancelOrders(filter_from(&v["filter"])),
             "trading" => Ev::Trading(v["on"].as_bool().unwrap_or(false)),
-            "acc_reconn" => Ev::AccReconn(us(&v["ex"]) % 2),
-            "mkt_reconn" => Ev::MktReconn(us(&v["ex"]) % 2),
+            "acc_reconn" => Ev::AccReconn(us(&v["ex"]) % 3),
+            "mkt_reconn" => Ev::MktReconn(us(&v["ex"]) % 3),
             "balance" => Ev::Balance(BalIn::from_json(&v["b"])),
             "order" => Ev::Order(Spec::from_json(&v["spec"]), OSt::from_json(&v["st"])),
             "cancel_resp" => Ev::CancelResp {
                 key: Key::from_json(&v["key"]),
                 ok: v["ok"].as_bool().unwrap_or(false),
                 t: i6(&v["t"]),
+                err: (us(&v["err"]) % 10) as u8,
             },
             "trade" => Ev::Trade {
                 i: us(&v["i"]) % N_INSTR,
@@ -399,7 +426,7 @@ impl Ev {
                 n: v["n"].as_u64().unwrap_or(0),
             },
             "snapshot" => Ev::Snapshot {
-                ex: us(&v["ex"]) % 2,
+                ex: us(&v["ex"]) % 3,
                 balances: arr(&v["balances"]).iter().map(BalIn::from_json).collect(),
                 orders: arr(&v["orders"])
                     .iter()
@@ -412,7 +439,11 @@ impl Ev {
                 bid: i6(&v["bid"]).clamp(1, 1_000_000),
                 ask: i6(&v["ask"]).clamp(1, 1_000_000),
                 t: i6(&v["t"]),
+                sides: (us(&v["sides"]) % 4) as u8,
             },
+            "mkt_book" => Ev::MktBook { i: us(&v["i"]) % N_INSTR, t: i6(&v["t"]), snapshot: v["snapshot"].as_bool().unwrap_or(false) },
+            "mkt_candle" => Ev::MktCandle { i: us(&v["i"]) % N_INSTR, t: i6(&v["t"]) },
+            "mkt_liq" => Ev::MktLiq { i: us(&v["i"]) % N_INSTR, t: i6(&v["t"]) },
             _ => Ev::Shutdown,
         }
     }
@@ -434,7 +465,12 @@ impl Ev {
             Ev::Trade { .. } => "ev_trade",
             Ev::Snapshot { .. } => "ev_account_snapshot",
             Ev::MktTrade { .. } => "ev_market_trade",
-            Ev::MktL1 { .. } => "ev_market_l1",
+            Ev::MktL1 { sides: 0, .. } => "ev_market_l1",
+            Ev::MktL1 { sides: 3, .. } => "ev_market_l1_empty",
+            Ev::MktL1 { .. } => "ev_market_l1_one_sided",
+            Ev::MktBook { .. } => "ev_market_book",
+            Ev::MktCandle { .. } => "ev_market_candle",
+            Ev::MktLiq { .. } => "ev_market_liquidation",
         }
     }
 }
@@ -475,6 +511,7 @@ impl Input {
             Perturb::Swap(i) => json!({"k": "swap", "i": i}),
             Perturb::Replay(i) => json!({"k": "replay", "i": i}),
             Perturb::Window(i, n) => json!({"k": "window", "i": i, "n": n}),
+            Perturb::Triple(i) => json!({"k": "triple", "i": i}),
         };
         json!({"mode": self.mode, "s_init": self.s_init, "trading0": self.trading0,
                "link": self.link, "hook": self.hook, "pre": steps_json(&self.pre),
@@ -497,6 +534,7 @@ impl Input {
                 "swap" => Perturb::Swap(pi),
                 "replay" => Perturb::Replay(pi),
                 "window" => Perturb::Window(pi, us(&p["n"])),
+                "triple" => Perturb::Triple(pi),
                 _ => Perturb::None,
             },
         }
@@ -693,28 +731,60 @@ pub struct Built {
 }
 
 pub fn instruments() -> IndexedInstruments {
+    use barter_instrument::{
+        asset::Asset,
+        instrument::{
+            kind::{
+                InstrumentKind,
+                future::FutureContract,
+                option::{OptionContract, OptionExercise, OptionKind},
+                perpetual::PerpetualContract,
+            },
+            quote::InstrumentQuoteAsset,
+        },
+    };
+    let expiry = t0() + Duration::days(90);
     IndexedInstruments::builder()
-        .add_instrument(Instrument::spot(
-            ExchangeId::BinanceSpot,
-            "binance_spot_btc_usdt",
-            "BTCUSDT",
+        .add_instrument(Instrument::spot(EXS[0], "x_spot_btc_usdt", "BTCUSDT", Underlying::new("btc", "usdt"), None))
+        // perpetual, small contract, settled in the quote asset
+        .add_instrument(Instrument::new(
+            EXS[0],
+            "x_perp_btc_usdt",
+            "BTCUSDT-PERP",
             Underlying::new("btc", "usdt"),
+            InstrumentQuoteAsset::UnderlyingQuote,
+            InstrumentKind::Perpetual(PerpetualContract { contract_size: Decimal::new(1, 3), settlement_asset: Asset::from("usdt") }),
             None,
         ))
-        .add_instrument(Instrument::spot(
-            ExchangeId::BinanceSpot,
-            "binance_spot_eth_usdt",
-            "ETHUSDT",
-            Underlying::new("eth", "usdt"),
-            None,
-        ))
-        .add_instrument(Instrument::spot(
-            ExchangeId::Kraken,
-            "kraken_spot_btc_usd",
-            "XBT/USD",
+        .add_instrument(Instrument::spot(EXS[1], "y_spot_eth_usdt", "ETHUSDT", Underlying::new("eth", "usdt"), None))
+        // future, large contract, settled in the base asset (!= quote)
+        .add_instrument(Instrument::new(
+            EXS[1],
+            "y_fut_btc_usd",
+            "BTCUSD-FUT",
             Underlying::new("btc", "usd"),
+            InstrumentQuoteAsset::UnderlyingQuote,
+            InstrumentKind::Future(FutureContract { contract_size: Decimal::new(100, 0), settlement_asset: Asset::from("btc"), expiry }),
             None,
         ))
+        // option, contract 0.01, settled in a third asset
+        .add_instrument(Instrument::new(
+            EXS[2],
+            "z_opt_eth_usd",
+            "ETHUSD-C-2000",
+            Underlying::new("eth", "usd"),
+            InstrumentQuoteAsset::UnderlyingQuote,
+            InstrumentKind::Option(OptionContract {
+                contract_size: Decimal::new(1, 2),
+                settlement_asset: Asset::from("usdc"),
+                kind: OptionKind::Call,
+                exercise: OptionExercise::European,
+                expiry,
+                strike: Decimal::new(2000, 0),
+            }),
+            None,
+        ))
+        .add_instrument(Instrument::spot(EXS[2], "z_spot_btc_usd", "BTCUSD", Underlying::new("btc", "usd"), None))
         .build()
 }
 
@@ -736,13 +806,14 @@ pub fn build(inp: &Input) -> Built {
         .time_engine_start(t0())
         .trading_state(if inp.trading0 { TradingState::Enabled } else { TradingState::Disabled })
         .balances([
-            (ExchangeId::BinanceSpot, "usdt", Balance::new(tenths(100_000), tenths(100_000))),
-            (ExchangeId::BinanceSpot, "btc", Balance::new(tenths(100), tenths(100))),
-            (ExchangeId::Kraken, "usd", Balance::new(tenths(50_000), tenths(50_000))),
+            (EXS[0], "usdt", Balance::new(tenths(100_000), tenths(100_000))),
+            (EXS[0], "btc", Balance::new(tenths(100), tenths(100))),
+            (EXS[1], "eth", Balance::new(tenths(700), tenths(650))),
+            (EXS[2], "usd", Balance::new(tenths(50_000), tenths(50_000))),
         ])
         .build();
     // the link of the exchange that hosts the last instrument may be broken
-    let weak_ex = layout.exch_of_instr[N_INSTR - 1];
+    let weak_ex = WEAK_EX;
     let mut rxs = vec![];
     let txs: Txs = layout
         .exch_ids
@@ -775,7 +846,7 @@ pub fn bad_instruments(inp: &Input, layout: &Layout) -> Vec<usize> {
     if inp.link == 0 {
         return vec![];
     }
-    let weak_ex = layout.exch_of_instr[N_INSTR - 1];
+    let weak_ex = WEAK_EX;
     (0..N_INSTR).filter(|i| layout.exch_of_instr[*i] == weak_ex).collect()
 }
 
@@ -824,14 +895,14 @@ pub fn engine_event(ev: &Ev, l: &Layout) -> EngineEvent<DataKind> {
             l.exch_of_instr[s.i],
             AccountEventKind::OrderSnapshot(Snapshot(l.order_report(s, st))),
         ),
-        Ev::CancelResp { key, ok, t } => account(
+        Ev::CancelResp { key, ok, t, err } => account(
             l.exch_of_instr[key.i],
             AccountEventKind::OrderCancelled(barter_execution::order::OrderEvent {
                 key: l.order_key(key, 0),
                 state: if *ok {
                     Ok(Cancelled { id: OrderId::new("o0"), time_exchange: at(*t) })
                 } else {
-                    Err(OrderError::Connectivity(ConnectivityError::Timeout))
+                    Err(order_error(*err))
                 },
             }),
         ),
@@ -856,13 +927,19 @@ pub fn engine_event(ev: &Ev, l: &Layout) -> EngineEvent<DataKind> {
                 AccountEventKind::Snapshot(AccountSnapshot {
                     exchange: ExchangeIndex(exi),
                     balances: balances.iter().map(|b| balance_of(b, n_assets)).collect(),
-                    instruments: orders
-                        .iter()
-                        .map(|(s, st)| InstrumentAccountSnapshot {
-                            instrument: InstrumentIndex(s.i),
-                            orders: vec![l.order_report(s, st)],
-                        })
-                        .collect(),
+                    instruments: {
+                        let mut v: Vec<InstrumentAccountSnapshot<ExchangeIndex, AssetIndex, InstrumentIndex>> = vec![];
+                        for (s, st) in orders {
+                            match v.last_mut() {
+                                Some(last) if last.instrument == InstrumentIndex(s.i) => last.orders.push(l.order_report(s, st)),
+                                _ => v.push(InstrumentAccountSnapshot {
+                                    instrument: InstrumentIndex(s.i),
+                                    orders: vec![l.order_report(s, st)],
+                                }),
+                            }
+                        }
+                        v
+                    },
                 }),
             )
         }
@@ -878,15 +955,61 @@ pub fn engine_event(ev: &Ev, l: &Layout) -> EngineEvent<DataKind> {
                 side: Side::Buy,
             }),
         })),
-        Ev::MktL1 { i, bid, ask, t } => EngineEvent::Market(MarketStreamEvent::Item(MarketEvent {
+        Ev::MktBook { i, t, snapshot } => {
+            let book = barter_data::books::OrderBook::new(
+                7,
+                Some(at(*t)),
+                vec![Level::new(Decimal::new(9990, 1), Decimal::new(3, 0))],
+                vec![Level::new(Decimal::new(10010, 1), Decimal::new(4, 0))],
+            );
+            EngineEvent::Market(MarketStreamEvent::Item(MarketEvent {
+                time_exchange: at(*t),
+                time_received: at(*t),
+                exchange: l.exch_ids[l.exch_of_instr[*i]],
+                instrument: InstrumentIndex(*i),
+                kind: DataKind::OrderBook(if *snapshot {
+                    barter_data::subscription::book::OrderBookEvent::Snapshot(book)
+                } else {
+                    barter_data::subscription::book::OrderBookEvent::Update(book)
+                }),
+            }))
+        }
+        Ev::MktCandle { i, t } => EngineEvent::Market(MarketStreamEvent::Item(MarketEvent {
+            time_exchange: at(*t),
+            time_received: at(*t),
+            exchange: l.exch_ids[l.exch_of_instr[*i]],
+            instrument: InstrumentIndex(*i),
+            kind: DataKind::Candle(barter_data::subscription::candle::Candle {
+                close_time: at(*t),
+                open: 1.0,
+                high: 3.0,
+                low: 0.5,
+                close: 2.0,
+                volume: 10.0,
+                trade_count: 4,
+            }),
+        })),
+        Ev::MktLiq { i, t } => EngineEvent::Market(MarketStreamEvent::Item(MarketEvent {
+            time_exchange: at(*t),
+            time_received: at(*t),
+            exchange: l.exch_ids[l.exch_of_instr[*i]],
+            instrument: InstrumentIndex(*i),
+            kind: DataKind::Liquidation(barter_data::subscription::liquidation::Liquidation {
+                side: Side::Sell,
+                price: 77.0,
+                quantity: 2.0,
+                time: at(*t),
+            }),
+        })),
+        Ev::MktL1 { i, bid, ask, t, sides } => EngineEvent::Market(MarketStreamEvent::Item(MarketEvent {
             time_exchange: at(*t),
             time_received: at(*t),
             exchange: l.exch_ids[l.exch_of_instr[*i]],
             instrument: InstrumentIndex(*i),
             kind: DataKind::OrderBookL1(OrderBookL1 {
                 last_update_time: at(*t),
-                best_bid: Some(Level::new(Decimal::new(*bid, 2), Decimal::new(10, 0))),
-                best_ask: Some(Level::new(Decimal::new(*ask, 2), Decimal::new(20, 0))),
+                best_bid: (*sides == 0 || *sides == 1).then(|| Level::new(Decimal::new(*bid, 2), Decimal::new(10, 0))),
+                best_ask: (*sides == 0 || *sides == 2).then(|| Level::new(Decimal::new(*ask, 2), Decimal::new(20, 0))),
             }),
         })),
     }
@@ -914,7 +1037,7 @@ pub fn coq_event(ev: &Ev, l: &Layout) -> String {
         Ev::Order(s, st) => format!("(EA [{}])", snap(s, st)),
         Ev::CancelResp { key, ok, .. } => format!("(EA [OCancelResp ({}) {}])", key.coq(), ok),
         Ev::Snapshot { orders, .. } => format!("(EA {})", list(&orders.iter().map(|(s, st)| snap(s, st)).collect::<Vec<_>>())),
-        Ev::MktTrade { .. } | Ev::MktL1 { .. } => "EM".into(),
+        Ev::MktTrade { .. } | Ev::MktL1 { .. } | Ev::MktBook { .. } | Ev::MktCandle { .. } | Ev::MktLiq { .. } => "EM".into(),
     }
 }
 
@@ -943,7 +1066,7 @@ fn coq_meta(o: &Open) -> String {
     format!(
         "(M {} {} {})",
         num_of(o.id.0.as_str(), 'o'),
-        zi((o.time_exchange - t0()).num_milliseconds()),
+        zi((o.time_exchange - t0()).num_nanoseconds().expect("ns offset fits i64")),
         zi128(dec_scaled(o.filled_quantity, 1))
     )
 }
@@ -1167,6 +1290,13 @@ pub fn perturb<T: Clone>(p: &Perturb, mut v: Vec<T>) -> Vec<T> {
                 v.push(x);
             }
         }
+        Perturb::Triple(i) => {
+            if *i < v.len() {
+                let x = v[*i].clone();
+                v.insert(*i, x.clone());
+                v.insert(*i, x);
+            }
+        }
         Perturb::Window(i, n) => {
             if *i < v.len() {
                 let w: Vec<T> = v[*i..(*i + *n).min(v.len())].to_vec();
@@ -1351,6 +1481,7 @@ fn run_case_inner(inp: &Input, stream: &'static str) -> Case {
             Perturb::Swap(i) => format!("(PSwap {})", i),
             Perturb::Replay(i) => format!("(PReplay {})", i),
             Perturb::Window(i, n) => format!("(PWindow {} {})", i, n),
+            Perturb::Triple(i) => format!("(PTriple {})", i),
         },
         snapshot.context.sequence.0,
         b(snapshot.event.trading == TradingState::Enabled),
@@ -1373,6 +1504,7 @@ fn run_case_inner(inp: &Input, stream: &'static str) -> Case {
         Perturb::Swap(_) => "perturb_swap",
         Perturb::Replay(_) => "perturb_replay",
         Perturb::Window(..) => "perturb_window",
+        Perturb::Triple(_) => "perturb_triple",
     }.into());
     tags.sort();
     tags.dedup();
